@@ -276,6 +276,10 @@ impl Layer {
             // nothing can be written outside the layer: swapping with it would only erase the other cell
             return;
         }
+        if self.properties.has_alpha_channel && self.properties.is_alpha_channel_locked && (!self.get_char(pos1).is_visible() || !self.get_char(pos2).is_visible()) {
+            // a locked alpha channel refuses the write to the invisible cell: swapping would only erase the other one
+            return;
+        }
         let tmp = self.get_char(pos1);
         self.set_char(pos1, self.get_char(pos2));
         self.set_char(pos2, tmp);
